@@ -35,6 +35,11 @@ SLOT_LIMIT = 1 << 21          # harness/drv_ptr.c: PTR_ALLOC_LIMIT / sizeof(void
 # format shapes ("%s" | pointer as format | "/%s" | "%s%s" | "%s/%d") with the same expansion
 GET_KINDS = "gGHIJD"
 SET_KINDS = "sSTUVE"
+# a lookup kind prefixed with "n" ("ng", "nG", …) is called with res == NULL (existence test)
+
+
+def is_get(k):
+    return k[-1] in GET_KINDS
 
 # ------------------------------------------------------------------ RFC 6901, from the RFC
 # `defects` is empty for the oracle.  The four switches reproduce the deviations the original
@@ -197,11 +202,11 @@ def parse_line(line):
     _, tree, ops = line.split(" ", 2)
     out = []
     for o in ops.split(";"):
-        k = o[0]
-        if k in GET_KINDS:
-            out.append((k, unhex(o[1:]), None))
+        k = o[:2] if o[0] == "n" else o[0]
+        if is_get(k):
+            out.append((k, unhex(o[len(k):]), None))
         else:
-            h, v = o[1:].split("=", 1)
+            h, v = o[len(k):].split("=", 1)
             out.append((k, unhex(h), jvtext.parse(v)[0]))
     return jvtext.parse(tree)[0], out
 
@@ -209,12 +214,14 @@ def parse_line(line):
 def mk_line(tree, ops):
     parts = []
     for k, p, v in ops:
-        parts.append(k + hexs(p) if k in GET_KINDS else k + hexs(p) + "=" + jvtext.dump(v))
+        parts.append(k + hexs(p) if is_get(k) else k + hexs(p) + "=" + jvtext.dump(v))
     return "ptr %s %s" % (jvtext.dump(tree), ";".join(parts))
 
 
 def parse_obs(o):
-    """list of (rc, errno, id, dump) and the END count (None when absent)"""
+    """list of (rc, errno, var, dump) and the END count (None when absent); var = the caller's
+    result variable after a lookup (node id | kept | noarg | UNSET | CLOBBERED) or the root
+    handle after a set (same | new)"""
     steps = o.split(" | ")
     end = None
     if steps and steps[-1].startswith("END "):
@@ -262,14 +269,24 @@ def violations(line, impl):
     for n, ((k, p, v), (rc, err, ident, dump)) in enumerate(zip(ops, steps)):
         before = jvtext.dump(cur)
         where = "op %d %s %r (%d bytes) on %s" % (n, k, p[:60], len(p), before[:80])
-        if k in GET_KINDS:
+        if is_get(k):
+            noarg = k[0] == "n"
+            # "a failed call changes nothing the caller can see" / "a success stores the node"
+            if ident in ("CLOBBERED", "ROOTCHANGED") or (rc != 0 and ident != ("noarg" if noarg else "kept")):
+                yield ("failed_get_changed_res", "a %s lookup (%s) changed the caller's %s: %s"
+                       % ("failing" if rc != 0 else "successful", k, "root handle" if ident == "ROOTCHANGED" else "result variable (preset before the call)", where))
+                cur = cur if dump == before else jvtext.parse(dump)[0]
+                continue
+            if rc == 0 and (ident == "UNSET" or (noarg and ident != "noarg")):
+                yield ("get_success_no_store", "a successful lookup (%s) did not store the node in the caller's result variable: %s" % (k, where))
+                continue
             mine = (rc, err, ident) if rc == 0 else (rc, err)
-            if k == "g":
-                plain[(before, p)] = mine
-            elif plain.get((before, p), mine) != mine:
+            if k[-1] == "g":
+                plain[(before, p, noarg)] = mine
+            elif plain.get((before, p, noarg), mine) != mine:
                 # "the printf-style variants behave as the plain ones on the formatted string"
                 yield ("getf_not_as_plain", "json_pointer_getf (format shape %s) answers %s where json_pointer_get answered %s on the "
-                       "same tree and the same formatted pointer: %s" % (k, tuple(str(x)[:48] for x in mine), tuple(str(x)[:48] for x in plain[(before, p)]), where))
+                       "same tree and the same formatted pointer: %s" % (k, tuple(str(x)[:48] for x in mine), tuple(str(x)[:48] for x in plain[(before, p, noarg)]), where))
                 cur = cur if dump == before else jvtext.parse(dump)[0]
                 continue
             if dump != before:
@@ -281,9 +298,9 @@ def violations(line, impl):
             else:
                 got = ("ok", ident) if rc == 0 else ("fail",)
 
-                def outcome(defects, cur=cur, p=p):
+                def outcome(defects, cur=cur, p=p, noarg=noarg):
                     r = rfc_get(cur, p, defects)
-                    return ("fail",) if r is None else ("ok", loc_id(r[0], r[1]))
+                    return ("fail",) if r is None else ("ok", "noarg" if noarg else loc_id(r[0], r[1]))
                 want = outcome(())
                 if got != want:
                     cls = classify_defect(lambda d: outcome(d) == got)
@@ -302,8 +319,12 @@ def violations(line, impl):
                 return ("ok", jvtext.dump(r))
             want = outcome(())
             got = ("ok", dump) if rc == 0 else ("fail",)
-            if rc != 0 and dump != before:
-                yield ("set_failed_changed", "failed set changed the tree to %s: %s" % (dump[:80], where))
+            # the root handle *obj: assigned only by the "" case (a fresh value, or NULL for null)
+            handle = "new" if (rc == 0 and p == b"" and not (cur is None and v is None)) else "same"
+            if rc != 0 and (dump != before or ident != "same"):
+                yield ("set_failed_changed", "failed set changed the %s: %s" % ("root handle" if ident != "same" else "tree to " + dump[:80], where))
+            elif rc == 0 and ident != handle:
+                yield ("set_root_handle", "after a successful set the root handle is %s, expected %s: %s" % (ident, handle, where))
             elif want == ("huge",):
                 # the array cannot grow that far: a failure without effect is the only acceptable answer
                 if rc == 0:
@@ -396,14 +417,14 @@ def length_cases(tier):
             members.append((name + b"k", ("i", -2)))
             tree = ("o", members)
             p = b"/" + name
-            ops = [(k, p, None) for k in ("g", "G", "I", "H", "J")]
+            ops = [(k, p, None) for k in (("g", "G", "I", "H", "J") if big else ("g", "G", "I", "H", "J", "ng", "nJ"))]
             for k in (("S",) if big else ("S", "U", "T", "V", "s")):
                 ops.append((k, p, ("i", 100 + len(ops))))
                 ops.append(("G" if big else "gGIHJ"[len(ops) % 5], p, None))
             if not big:
                 # a name one byte longer than any present: must be not-found, then created
                 q = b"/" + name + b"kk"
-                ops += [("g", q, None), ("I", q, None), ("U", q, ("i", 7)), ("G", q, None)]
+                ops += [("g", q, None), ("I", q, None), ("nG", q, None), ("U", q, ("i", 7)), ("G", q, None)]
             out.append((mk_line(tree, ops), {"kind": "length-sweep"}))
         # shape 2: "/a/<idx>/" + name, and "/" + name + "/<idx>" (the "%s/%d" shape), total L bytes
         if 6 <= L and not big:
@@ -590,6 +611,12 @@ WITNESSES = [
     (("o", [(b"~2", ("i", 1))]), [("g", b"/~2", None)]),                                 # invalid_escape_accepted
     (("o", [(b"~", ("i", 1))]), [("H", b"/~", None)]),
     (("o", []), [("s", b"/b~", ("i", 5))]),
+    # a failed call changes nothing the caller can see: every entry point, every kind of failure
+    (("o", [(b"a", [("i", 1)]), (b"b", None)]),
+     [(k, p, None) for p in (b"/x", b"/a/1", b"/a/01", b"/a/-", b"/b/c", b"a", b"/a~", b"/a/0/z") for k in ("g", "G", "H", "I", "J", "D", "ng", "nG")]),
+    (("o", [(b"a", [("i", 1)])]),
+     [(k, p, ("i", 2)) for p in (b"/x/y", b"/a/x", b"a", b"/a/0/z", b"/a/01") for k in SET_KINDS]
+     + [("s", b"", ("i", 3)), ("g", b"", None), ("S", b"", None), ("G", b"", None), ("V", b"", None), ("s", b"/a", ("i", 1))]),
 ]
 
 
@@ -622,6 +649,8 @@ def gen(rng, tier):
                 p = p.replace(b"\0", b"a")
             if rng.random() < 0.55:
                 k = rng.choice("gggGHIJD")
+                if rng.random() < 0.2:
+                    k = "n" + k                                    # res == NULL: existence test
                 ops.append((k, p, None))
                 kinds.add("get-valid" if good else "get-damaged")
             else:
@@ -637,7 +666,7 @@ def gen(rng, tier):
                 ops.append((k, sp, v))
                 kinds.add("set-valid" if good else "set-damaged")
                 if rng.random() < 0.7:
-                    ops.append((rng.choice("ggGHIJD"), sp, None))     # a following lookup of the same pointer
+                    ops.append((rng.choice(["g", "g", "G", "H", "I", "J", "D", "ng", "nG"]), sp, None))     # a following lookup of the same pointer
                 # continue on the tree the RFC placement gives (only to aim later pointers)
                 nxt = rfc_set(cur, sp, v)
                 if nxt is not FAIL and nxt is not HUGE:
